@@ -425,7 +425,8 @@ def literal_scan(task, tier, seed):
                 fails.append(f"CodeGenerator.{name} uses get_resolve_func")
     rs.append(Res("C32.resolve.only_site.literals", "refuted" if fails else "discharged", "ast-scan", 0, "; ".join(fails[:3]), "table",
                   witness={"failures": fails[:5]} if fails else None))
-    return rs
+    from contracts.emit_template import soften
+    return soften(rs, native_undeclared)
 
 
 # ------------------------------------------------------------------------------------------ tracking class
@@ -481,7 +482,8 @@ def tracking_tables(task, tier, seed):
     if diff:
         fails.append(f"TrackingCodeGenerator(env) starts in another state than CodeGenerator(env, ...): fields {sorted(diff)}")
     row("init", fails)
-    return rs
+    from contracts.emit_template import soften
+    return soften(rs, native_undeclared)
 
 
 def _set_algebra_specs(I):
@@ -765,7 +767,8 @@ def sites_tables(task, tier, seed):
             fails.append(f"nodes.{name} has a `template` field but is not in meta._ref_types")
     rs.append(Res("C32.refs.sites.tables", "refuted" if fails else "discharged", "table", 0, "; ".join(fails[:3]), "table",
                   witness={"failures": fails[:5]} if fails else None))
-    return rs
+    from contracts.emit_template import soften
+    return soften(rs, native_refs)
 
 
 # ------------------------------------------------------------------------------------------ refs.yield
